@@ -203,9 +203,12 @@ def check(prop, tier, seed, a, workdir, t_start):
         results = []
         if fs:
             where = ' || '.join('(%s)' % f['where'] for f in fs)
-            r = pl.run_group(bu, g, extra_defs=defs + ['VERIF_WHERE=' + where], label=label)
-            r['finding_mode'] = 'exclude'
-            results.append(r)
+            if not all(f['where'].strip() in ('1', 'true') for f in fs):
+                # inputs outside the listed findings must still be discharged (a different violation is still reported)
+                r = pl.run_group(bu, g, extra_defs=defs + ['VERIF_WHERE=' + where], label=label)
+                r['finding_mode'] = 'exclude'
+                results.append(r)
+            # (where=1: the finding covers every input of this proof case; the other cases of the function are separate groups)
             for f in fs:
                 r2 = pl.run_group(bu, g, extra_defs=defs + ['VERIF_WHERE=(%s)' % f['where'], 'VERIF_FINDING_ONLY=1'], label=label)
                 r2['finding_mode'] = 'only'
